@@ -19,6 +19,57 @@ constraints' defining equations (never from quara's formulas):
   forms-agree     object-level, variable-level and closure forms give the same
                   variable under both parametrisation flags
 
+HISTORY / COMBINATION steps (the oracles above stay the judges; a verdict reached
+inside a step carries the step's tag as the last part of its violation key).
+Every case, after its normal work, runs two or three of these on the objects it
+has already used (the first case of a light shard runs all; `finalize` demands
+every step for every type):
+
+  requery         the same object asked again in the other order (:second-query)
+  interleave      a second object of the same class / size / flag built from
+                  other data, asked alternately (:interleaved-objects)
+  provenance      objects returned by the library - copy(), generate_from_var(
+                  to_var()), generate_zero_obj(), generate_origin_obj(), a chain
+                  of projections, + - * of objects and projections - projected
+                  (:via-<how>) and used as hosts of default-flag closures
+                  (:host-via-<how>; the closure must work under the flag of the
+                  object it descends from)
+  closure-reuse   one closure called for several variables, also through one
+                  caller-owned array whose contents the caller replaced
+                  (:closure-re-used[:same-array-new-contents]); one host asked
+                  for closures under flag True, False and None before any is
+                  called (:same-host-several-flags); closures of two hosts used
+                  alternately (:interleaved-closures)
+  static-reuse    the static forms called again with the same array object and
+                  new contents, with the other flag in between, and with a
+                  returned variable as the next input (:static-re-used...,
+                  :input-from-previous-result)
+  kept-closures   closures made in an earlier case of the shard (other host,
+                  other data) applied to this case's variable
+                  (:closure-kept-from-earlier-case; on a replay of the single
+                  case the kept closures do not exist and the step is empty)
+  setters         query -> set_mode_proj_order / eps_truncate_imaginary_part
+                  setter -> query (:after-option-setters); a projection result
+                  zeroed with set_zero() and projected (:result-zeroed-after-
+                  projection); query -> set_zero() -> query on the same object
+                  (:after-set_zero); closures made before / after the host was
+                  zeroed (:closure-made-before-set_zero-of-host, :host-after-
+                  set_zero)
+
+and, independent of the steps: `result-stable` - nothing the library returned in a
+case (objects, variables, closure outputs; except arrays that may alias a
+caller-owned input) may be changed by a later library call
+(`...:result-changed-by-later-call`); half of the cases build all their objects
+with non-default constructor options that no projection reads (mode_proj_order,
+on_algo_*, is_estimation_object, eps_proj_physical, MProcess shape / eps_zero);
+a sibling composite system of the same dimensions over the other basis is used,
+unjudged, before the first and between the judged calls (what the library
+remembers per dimension / size / class instead of per system then answers for
+the wrong basis and the ordinary oracles fire).  Only public methods, public
+setters and caller-owned buffers are used.  Exceptions inside a step get the tag
+too, except in the scale class 1e3 (the listed truncation-threshold finding
+lives there and the property says nothing about that threshold).
+
 With on_para_eq_constraint=True a variable v omits the entries implied by the
 equality constraint; it denotes full(v).  The variable-level forms are then
 required to return drop(P(full(v))) (what the object-level form gives for the
@@ -37,7 +88,14 @@ RULE = ("raw parameter vectors of State/Povm/Gate/MProcess on S1,S3,S2,S23 (stan
         "eigenvalues, complex eigenvectors) / physical interior / physical boundary (rank deficient) / eq-feasible only / "
         "PSD only / physical+small perturbation, scales 1e-3,1,1e3, both parametrisation flags; every projection form "
         "(object, static with var, 4 closures) evaluated per case; a case is distinct by (type,shape,basis,class,scale,m,"
-        "rounded parameters) and non-trivial unless the input is a strictly interior physical point")
+        "rounded parameters) and non-trivial unless the input is a strictly interior physical point; after its normal work every "
+        "case runs history / combination steps on the objects it has used, judged by the same oracles (keys tagged with the "
+        "step): re-query in the other order, a second object of the same size asked alternately, objects obtained through "
+        "copy / generate_from_var / generate_zero_obj / generate_origin_obj / projection chains / arithmetic (also as closure "
+        "hosts), closures and static forms re-used for other variables (same array object with new contents, several flags "
+        "from one host, closures kept from earlier cases), query -> public setter (set_zero, option setters) -> query; "
+        "returned results must not be changed by later calls; half of the cases use non-default constructor options; a "
+        "sibling composite system of the same dimensions over the other basis is used unjudged in between")
 TYPES = ["State", "Povm", "Gate", "MProcess"]
 _FILES = {"State": "state", "Povm": "povm", "Gate": "gate", "MProcess": "mprocess"}
 ANCHORS = []
@@ -59,7 +117,9 @@ for _t in TYPES:
                              f"{_t}.calc_proj_{_w}_constraint_with_var:flag=False:pure",
                              f"{_t}.func_calc_proj_{_w}_constraint():flag=True:nearest",
                              f"{_t}.func_calc_proj_{_w}_constraint_with_var():flag=False:nearest",
-                             f"{_t}.{_w}:flag=True:forms-agree", f"{_t}.{_w}:flag=False:forms-agree"]
+                             f"{_t}.{_w}:flag=True:forms-agree", f"{_t}.{_w}:flag=False:forms-agree",
+                             f"{_t}.calc_proj_{_w}_constraint:result-stable",
+                             f"{_t}.calc_proj_{_w}_constraint_with_var:flag=False:result-stable"]
 MIN_EVALS = {"quick": 50000, "thorough": 500000}
 WATCHDOG = {"quick": 900, "thorough": 3600}
 ASSUMPTIONS = [
@@ -72,6 +132,7 @@ ASSUMPTIONS = [
 SCALES = [1e-3, 1.0, 1e3]
 KINDS = ["gauss", "gauss", "deg", "deg", "feasible", "boundary", "eqfeas", "ineqfeas", "near"]
 N_Z = 50
+N_Z_HISTORY = 8  # inside history steps (the reference comparison `nearest` is the deciding oracle there)
 TOL_PASS, TOL_FAIL = 1e-10, 1e-7  # x scale
 FEAS_PASS, FEAS_FAIL = 1e-12, 1e-9  # x scale
 
@@ -348,6 +409,18 @@ def norm(x):
 # ---------------------------------------------------------------- the judge
 
 
+class _Step:
+    def __init__(self, J, tag, n_z):
+        self.J, self.tag, self.n_z = J, tag, n_z
+
+    def __enter__(self):
+        self.old = (self.J.sfx, self.J.n_z)
+        self.J.sfx, self.J.n_z = self.tag, self.n_z
+
+    def __exit__(self, *a):
+        self.J.sfx, self.J.n_z = self.old
+
+
 class Judge:
     def __init__(self, ctx, B):
         self.ctx = ctx
@@ -359,12 +432,46 @@ class Judge:
         self.closures = {}  # id(f) -> (f, T, which, with_var, flag, host)
         self.hs = None
         self.scale_class = 1.0
+        self.sfx = ""  # history tag appended to the keys of violations observed inside a history step
+        self.n_z = N_Z  # comparison points of the variational inequality (fewer inside history steps)
+        self.held = []  # results handed out earlier: (label, object or array, digest of its raw arrays)
 
     def begin_case(self, scale_class=1.0):
         self.scale_class = scale_class
         self.k = 0
         self.cache.clear()
         self.closures.clear()
+        self.held.clear()
+        self.sfx = ""
+        self.n_z = N_Z
+
+    # ---- history steps
+    def step(self, tag, n_z=N_Z_HISTORY):
+        """context: verdicts reached inside carry `tag` in their violation keys (oracle names are unchanged)"""
+        return _Step(self, tag, n_z)
+
+    def key(self, s):
+        return s + self.sfx
+
+    def hold(self, label, x, *inputs):
+        """remember a result (quara object or array) returned by the library; `check_held` later demands that no later
+        library call has changed it.  Results that may share memory with a caller-owned input (the documented identity
+        case returns the input itself) are not held: the driver overwrites its own buffers."""
+        arrs = x if isinstance(x, np.ndarray) else gen.raw_params(x)
+        arrs = list(arrs) if isinstance(arrs, (list, tuple)) else [arrs]
+        for r in arrs:
+            for inp in inputs:
+                if isinstance(r, np.ndarray) and isinstance(inp, np.ndarray) and np.may_share_memory(r, inp):
+                    self.ctx.count("held-result-skipped:may-alias-caller-input")
+                    return
+        self.held.append((label, x, digest(arrs)))
+
+    def check_held(self):
+        for label, x, d in self.held:
+            arrs = x if isinstance(x, np.ndarray) else gen.raw_params(x)
+            arrs = list(arrs) if isinstance(arrs, (list, tuple)) else [arrs]
+            self.ctx.truth(f"{label}:result-stable", digest(arrs) == d, key=f"{label}:result-changed-by-later-call")
+        self.held.clear()
 
     def rng(self):
         self.k += 1
@@ -400,33 +507,34 @@ class Judge:
                 raise TypeError("object array")
             p = p.reshape(-1)
         except Exception:
-            ctx.truth(f"{label}:well-formed", False, key=f"{label}:bad-output-type", info={"type": type(out).__name__})
+            ctx.truth(f"{label}:well-formed", False, key=self.key(f"{label}:bad-output-type"), info={"type": type(out).__name__})
             return None
         if p.size != size:
-            ctx.truth(f"{label}:well-formed", False, key=f"{label}:bad-output-length", info={"got": int(p.size), "want": int(size)})
+            ctx.truth(f"{label}:well-formed", False, key=self.key(f"{label}:bad-output-length"), info={"got": int(p.size), "want": int(size)})
             return None
         if not np.all(np.isfinite(p)):
-            ctx.truth(f"{label}:well-formed", False, key=f"{label}:non-finite-output")
+            ctx.truth(f"{label}:well-formed", False, key=self.key(f"{label}:non-finite-output"))
             return None
         if np.iscomplexobj(p):
-            st = ctx.num(f"{label}:real", norm(p.imag) / max(1.0, norm(p.real)), tp, tf, key=f"{label}:complex-output")
+            st = ctx.num(f"{label}:real", norm(p.imag) / max(1.0, norm(p.real)), tp, tf, key=self.key(f"{label}:complex-output"))
             if st == "fail":
                 return None
             p = p.real
         ctx.truth(f"{label}:well-formed", True)
         return np.asarray(p, dtype=np.float64)
 
-    def judge_full(self, label, spec, which, a, p, again=None, n_z=N_Z):
+    def judge_full(self, label, spec, which, a, p, again=None, n_z=None):
         """all point oracles for a projection acting on stacked vectors: a -> p.
         again: callable returning P(p) as a stacked vector (hooks paused) or None."""
         ctx = self.ctx
+        n_z = self.n_z if n_z is None else n_z
         scale, tp, tf = self.tols(a)
-        info = {"type": spec.T, "m": spec.m, "norm_a": norm(a), "which": which}
+        info = {"type": spec.T, "m": spec.m, "norm_a": norm(a), "which": which, "step": self.sfx}
         viol = spec.violation(which, p)
-        ctx.num(f"{label}:feasible", viol / scale, FEAS_PASS, FEAS_FAIL, key=f"{label}:not-feasible", info=info)
+        ctx.num(f"{label}:feasible", viol / scale, FEAS_PASS, FEAS_FAIL, key=self.key(f"{label}:not-feasible"), info=info)
         pref = self.ref_proj(spec, which, a)
         err = norm(p - pref)
-        ctx.num(f"{label}:nearest", err / scale, tp, tf, key=f"{label}:not-nearest",
+        ctx.num(f"{label}:nearest", err / scale, tp, tf, key=self.key(f"{label}:not-nearest"),
                 info=dict(info, dist_out=norm(a - p), dist_ref=norm(a - pref)))
         # variational inequality against feasible points that do not come from the reference projection
         rng = self.rng()
@@ -449,12 +557,12 @@ class Judge:
             if den > 0:
                 worst = max(worst, max(0.0, ip) / den)
         if used:
-            ctx.num(f"{label}:vi", worst / scale, tp, tf, key=f"{label}:variational-inequality-violated", info=dict(info, points=used))
+            ctx.num(f"{label}:vi", worst / scale, tp, tf, key=self.key(f"{label}:variational-inequality-violated"), info=dict(info, points=used))
         else:
             ctx.skip(f"{label}:vi")
         # fixed point
         if spec.violation(which, a) <= 1e-14 * scale:
-            ctx.num(f"{label}:fixed-point", norm(p - a) / scale, tp, tf, key=f"{label}:moves-feasible-point", info=info)
+            ctx.num(f"{label}:fixed-point", norm(p - a) / scale, tp, tf, key=self.key(f"{label}:moves-feasible-point"), info=info)
         # idempotence
         if again is not None:
             ok, p2 = ctx.attempt(again)
@@ -463,7 +571,7 @@ class Judge:
             else:
                 p2 = self.clean(f"{label}:idempotent-output", p2, p.size, tp, tf)
                 if p2 is not None:
-                    ctx.num(f"{label}:idempotent", norm(p2 - p) / scale, tp, tf, key=f"{label}:not-idempotent", info=info)
+                    ctx.num(f"{label}:idempotent", norm(p2 - p) / scale, tp, tf, key=self.key(f"{label}:not-idempotent"), info=info)
 
     def judge_var(self, label, spec, which, v, flag, out, again=None):
         """variable-level form: v (flag) -> out"""
@@ -477,27 +585,34 @@ class Judge:
             self.judge_full(label, spec, which, a, p, again=again)
             return p
         want = spec.drop(self.ref_proj(spec, which, a), True)
-        info = {"type": spec.T, "m": spec.m, "norm_a": norm(a), "which": which}
-        ctx.num(f"{label}:nearest", norm(p - want) / scale, tp, tf, key=f"{label}:not-nearest", info=info)
+        info = {"type": spec.T, "m": spec.m, "norm_a": norm(a), "which": which, "step": self.sfx}
+        ctx.num(f"{label}:nearest", norm(p - want) / scale, tp, tf, key=self.key(f"{label}:not-nearest"), info=info)
         if which == "eq":
             # every variable denotes an eq-feasible object: the projection is the identity
-            ctx.num(f"{label}:fixed-point", norm(p - v) / scale, tp, tf, key=f"{label}:moves-feasible-point", info=info)
+            ctx.num(f"{label}:fixed-point", norm(p - v) / scale, tp, tf, key=self.key(f"{label}:moves-feasible-point"), info=info)
             if again is not None:
                 ok, p2 = ctx.attempt(again)
                 if ok:
                     p2 = self.clean(f"{label}:idempotent-output", p2, p.size, tp, tf)
                     if p2 is not None:
-                        ctx.num(f"{label}:idempotent", norm(p2 - p) / scale, tp, tf, key=f"{label}:not-idempotent", info=info)
+                        ctx.num(f"{label}:idempotent", norm(p2 - p) / scale, tp, tf, key=self.key(f"{label}:not-idempotent"), info=info)
         return p
 
     def exc(self, label, which, e, scale_class=None):
         """an exception where the property promises a value; keyed by the raising site (one root cause, one key)
         and the scale class of the case's input"""
-        self.ctx.violation(f"calc_proj_{which}_constraint:{self.ctx.exc_key(e)}:scale={self.scale_class:g}",
-                           {"entry": label, "message": str(e)[:160]})
+        # (inside a history step the tag is appended, except in the scale class 1e3 where the listed finding about the
+        # absolute truncation threshold lives: the property says nothing about that threshold, so a history step must not
+        # turn an exception of that class into a new key)
+        sfx = self.sfx if self.scale_class != 1e3 else ""
+        self.ctx.violation(f"calc_proj_{which}_constraint:{self.ctx.exc_key(e)}:scale={self.scale_class:g}{sfx}",
+                           {"entry": label, "message": str(e)[:160], "history": self.sfx})
 
     # ---- closures: registered by the factory hooks, evaluated through call_closure
-    def call_closure(self, f, v, scale_class):
+    def call_closure(self, f, v, scale_class, expect_flag=None):
+        """expect_flag: parametrisation flag of the host the closure was asked from with the default argument (history
+        steps with hosts obtained through copy() / generate_* / projections / arithmetic): the closure then has to work
+        under that flag"""
         ctx = self.ctx
         meta = self.closures.get(id(f))
         if meta is None:
@@ -505,6 +620,12 @@ class Judge:
             return None
         _, T, which, wv, flag, host = meta
         label = f"{T}.func_calc_proj_{which}_constraint{'_with_var' if wv else ''}():flag={flag}"
+        if expect_flag is not None:
+            ctx.truth(f"{T}.func_calc_proj_{which}_constraint{'_with_var' if wv else ''}:default-flag-is-host-flag",
+                      bool(flag) == bool(expect_flag),
+                      key=self.key(f"{T}.func_calc_proj_{which}_constraint{'_with_var' if wv else ''}:default-flag-differs-from-flag-of-origin"))
+            if bool(flag) != bool(expect_flag):
+                return None
         n = self.fr.n
         m, ok = Spec.m_from_len(T, n, v.size, flag)
         if not ok:
@@ -520,12 +641,12 @@ class Judge:
             if nested:
                 ctx.count("closure-mutation-attributed-to-inner-function")
             else:
-                ctx.truth(f"{label}:pure", False, key=f"{label}:mutates-var")
+                ctx.truth(f"{label}:pure", False, key=self.key(f"{label}:mutates-var"))
         elif digest(host) != dh:
             if nested:
                 ctx.count("closure-mutation-attributed-to-inner-function")
             else:
-                ctx.truth(f"{label}:pure", False, key=f"{label}:mutates-host-object")
+                ctx.truth(f"{label}:pure", False, key=self.key(f"{label}:mutates-host-object"))
         else:
             ctx.truth(f"{label}:pure", True)
         if not ok:
@@ -538,8 +659,9 @@ class Judge:
             if p is None:
                 return None
             want = spec.drop(self.ref_proj(spec, which, a), flag)
-            ctx.num(f"{label}:nearest", norm(p - want) / scale, tp, tf, key=f"{label}:not-nearest",
-                    info={"type": T, "m": m, "norm_a": norm(a)})
+            ctx.num(f"{label}:nearest", norm(p - want) / scale, tp, tf, key=self.key(f"{label}:not-nearest"),
+                    info={"type": T, "m": m, "norm_a": norm(a), "step": self.sfx})
+            self.hold(label, p, v)  # p is a view of the returned array (or a private copy, which trivially stays)
         return p
 
 
@@ -575,9 +697,9 @@ def install(ctx, c_sys):
             pure = digest(self) == dg
             if not pure:
                 J.mut_events += 1
-            ctx.truth(f"{label}:pure", pure, key=f"{label}:mutates-self")
+            ctx.truth(f"{label}:pure", pure, key=J.key(f"{label}:mutates-self"))
             if not isinstance(result, cls):
-                ctx.truth(f"{label}:well-formed", False, key=f"{label}:returns-{type(result).__name__}")
+                ctx.truth(f"{label}:well-formed", False, key=J.key(f"{label}:returns-{type(result).__name__}"))
                 return
             spec = J.spec(T, m_of(self, T))
             scale, tp, tf = J.tols(a0)
@@ -617,11 +739,11 @@ def install(ctx, c_sys):
             pure_c = digest(cs) == dc
             if not (pure_v and pure_c):
                 J.mut_events += 1
-            ctx.truth(f"{label}:pure", pure_v, key=f"{label}:mutates-var",
+            ctx.truth(f"{label}:pure", pure_v, key=J.key(f"{label}:mutates-var"),
                       info={"max_change": float(np.max(np.abs(np.asarray(var, dtype=float) - v0))) if not pure_v else 0.0,
                             "result_is_var": result is var})
             if not pure_c:
-                ctx.truth(f"{label}:pure", False, key=f"{label}:mutates-c_sys")
+                ctx.truth(f"{label}:pure", False, key=J.key(f"{label}:mutates-c_sys"))
             if cs is not c_sys:
                 ctx.count("foreign-composite-system")
                 return
@@ -653,12 +775,12 @@ def install(ctx, c_sys):
         def post(result, snap, self, *a, **kw):
             if type(self) is not cls:
                 return
-            ctx.truth(f"{label}:pure", digest(self) == snap, key=f"{label}:mutates-self")
+            ctx.truth(f"{label}:pure", digest(self) == snap, key=J.key(f"{label}:mutates-self"))
             flag = a[0] if a else kw.get("on_para_eq_constraint")
             if flag is None:
                 flag = self.on_para_eq_constraint
             if not callable(result):
-                ctx.truth(f"{label}:well-formed", False, key=f"{label}:returns-non-callable")
+                ctx.truth(f"{label}:well-formed", False, key=J.key(f"{label}:returns-non-callable"))
                 return
             J.closures[id(result)] = (result, T, which, wv, bool(flag), self)
 
@@ -737,6 +859,29 @@ def make_input(spec, kind, s, rng):
     return a
 
 
+HISTORY_STEPS = ["requery", "interleave", "provenance", "closure-reuse", "static-reuse", "kept-closures", "setters"]
+PROVENANCES = ["copy", "generate_from_var", "generate_zero_obj", "generate_origin_obj", "projection-chain",
+               "sum-of-projections", "scaled", "residual"]
+SCALED_KINDS = ("gauss", "deg", "eqfeas", "ineqfeas")
+
+
+def draw_ctor_options(hr, T, m):
+    """non-default values of the constructor options that no single projection reads (the property quantifies over
+    objects, not over these options: every verdict is the same as for a default-option object)"""
+    if hr.random() < 0.5:
+        return {}
+    o = {"mode_proj_order": str(hr.choice(["eq_ineq", "ineq_eq"])), "on_algo_eq_constraint": bool(hr.integers(2)),
+         "on_algo_ineq_constraint": bool(hr.integers(2)), "is_estimation_object": bool(hr.integers(2))}
+    if hr.random() < 0.5:
+        o["eps_proj_physical"] = float(hr.choice([1e-6, 1e-3]))
+    if T == "MProcess":
+        shapes = [(m,), (1, m), (m, 1)] + ([(2, 2)] if m == 4 else [])
+        o["shape"] = tuple(int(x) for x in shapes[int(hr.integers(len(shapes)))])
+        if hr.random() < 0.5:
+            o["eps_zero"] = 1e-6
+    return o
+
+
 def run_shard(ctx):
     p = ctx.params
     T, shape, bkind = p["type"], p["shape"], p["basis"]
@@ -754,31 +899,294 @@ def run_shard(ctx):
         ctx.mark_inconclusive("quara does not regard the basis as orthonormal Hermitian identity-first")
         hs.uninstall()
         return
+    # a second composite system of the same dimensions over the other basis: used unjudged, before and between the judged
+    # calls (anything the library remembers per dimension / size / class instead of per system would answer for it)
+    sib = gen.make_csys(dims, kind="std") if bkind == "mix" else mix_csys(dims)
+    kept = {}  # (m, flag) -> closures made in an earlier case of this shard: [(name, closure, registry entry)]
+    steps_done = {}
 
-    def build(a, spec, flag, eps):
+    def build(a, spec, flag, eps, opts=None):
         kw = {"is_physicality_required": False, "on_para_eq_constraint": flag}
         if eps is not None:
             kw["eps_truncate_imaginary_part"] = eps
+        kw.update(opts or {})
         return ctx.attempt(cls, c_sys, spec.unstack(a), **kw)
 
+    def sibling_pass(rg, m):
+        sp = J.spec(T, m)
+        x = rg.standard_normal(sp.size)
+        with hs.paused():
+            for flag in (True, False):
+                try:
+                    o = cls(sib, sp.unstack(x), is_physicality_required=False, on_para_eq_constraint=flag)
+                    xv = sp.drop(x, flag)
+                    for which in ("eq", "ineq"):
+                        getattr(o, f"calc_proj_{which}_constraint")()
+                        getattr(cls, f"calc_proj_{which}_constraint_with_var")(sib, xv.copy(), flag)
+                        for wv in ("", "_with_var"):
+                            getattr(o, f"func_calc_proj_{which}_constraint{wv}")()(xv.copy())
+                except Exception as e:  # the sibling is not judged
+                    ctx.count(f"sibling-system:{type(e).__name__}")
+        ctx.count("history:sibling-system-pass")
+
+    def history(i, hr, spec, a, s, eps, opts, per_flag):
+        """HISTORY / COMBINATION steps on the objects of this case (all verdicts by the ordinary oracles; keys carry the
+        step's tag).  Only public methods, public setters and caller-owned buffers are used."""
+        cands = [f for f in (True, False) if f in per_flag]
+        if not cands:
+            return
+        fl = cands[int(hr.integers(len(cands)))]
+        c = per_flag[fl]
+        objf, other, v = c["objf"], c["other"], c["v"]
+        if i == 0 and p["n"] >= 8:
+            steps = list(HISTORY_STEPS)  # the first case of a (light) shard runs every step; finalize demands each step per type
+        else:
+            steps = [str(x) for x in hr.choice(HISTORY_STEPS[:6], size=2, replace=False)]
+            if hr.random() < 0.3:
+                steps.append("setters")
+        # second input of the same scale class as the case's (the case's truncation threshold, if any, is chosen for that scale)
+        kind_b = str(hr.choice(KINDS if s == 1.0 else [k for k in KINDS if k in SCALED_KINDS]))
+        b = np.ascontiguousarray(make_input(spec, kind_b, s if kind_b in SCALED_KINDS else 1.0, hr), dtype=np.float64)
+        w = spec.drop(b, fl)
+        host_b = None
+
+        def q_obj(o, which, hold=True):
+            name = f"calc_proj_{which}_constraint"
+            ok, r = ctx.attempt(getattr(o, name))
+            if not ok:
+                J.exc(f"{T}.{name}", which, r, s)
+                return None
+            if isinstance(r, cls):
+                if hold:
+                    J.hold(f"{T}.{name}", r)
+                return r
+            return None
+
+        def q_static(which, buf, flag):
+            name = f"calc_proj_{which}_constraint_with_var"
+            kw = {"eps_truncate_imaginary_part": eps} if (which == "ineq" and eps is not None) else {}
+            ok, out = ctx.attempt(getattr(cls, name), c_sys, buf, flag, **kw)
+            if not ok:
+                J.exc(f"{T}.{name}:flag={flag}", which, out, s)
+                return None
+            if isinstance(out, np.ndarray) and out.dtype != object:
+                J.hold(f"{T}.{name}:flag={flag}", out, buf)
+                return out
+            return None
+
+        metas = {}
+
+        def factory(host, which, wv, farg=None):
+            nm = f"func_calc_proj_{which}_constraint{'_with_var' if wv else ''}"
+            ok, f = ctx.attempt(getattr(host, nm), *(() if farg is None else (farg,)))
+            if not ok:
+                ctx.violation(J.key(f"{T}.{nm}:" + ctx.exc_key(f)), {"flag": fl})
+                return None
+            if id(f) not in J.closures:
+                return None
+            metas[id(f), which, wv, farg] = J.closures[id(f)]  # as registered by THIS factory call
+            return f
+
+        def call(f, which, wv, farg, buf, expect=None):
+            """call a closure as the closure of the factory call (which, wv, farg): were the library to hand out one
+            closure object for two factory calls, each use is still judged under the flag it was asked for"""
+            J.closures[id(f)] = metas[id(f), which, wv, farg]
+            return J.call_closure(f, buf, s, expect_flag=expect)
+
+        def get_host_b():
+            nonlocal host_b
+            if host_b is None:
+                ok, hb = build(b, spec, fl, eps, opts)
+                host_b = hb if ok else False
+            return host_b or None
+
+        def rand_form():
+            return ("eq", "ineq")[int(hr.integers(2))], bool(hr.integers(2))
+
+        def ran(st):
+            steps_done[st] = steps_done.get(st, 0) + 1
+
+        for st in steps:
+            if st == "requery":
+                ran(st)
+                # (a) the same object asked again, in the other order
+                with J.step(":second-query"):
+                    for which in ("ineq", "eq"):
+                        q_obj(objf, which)
+            elif st == "interleave":
+                # (c) two objects of the same class, size and flag, asked alternately
+                hb = get_host_b()
+                if hb is not None:
+                    ran(st)
+                    with J.step(":interleaved-objects"):
+                        for which in ("ineq", "eq"):
+                            q_obj(hb, which)
+                            q_obj(objf, which)
+            elif st == "provenance":
+                # (b) objects returned by the library instead of constructed ones, also as hosts of default-flag closures
+                names = [str(x) for x in hr.choice(PROVENANCES, size=(4 if i == 0 else 2), replace=False)]
+                if "copy" not in names and hr.random() < 0.4:
+                    names[-1] = "copy"
+                for pv in names:
+                    with J.step(f":via-{pv}"):
+                        if pv == "copy":
+                            ok, d = ctx.attempt(objf.copy)
+                        elif pv == "generate_from_var":
+                            ok, d = ctx.attempt(lambda: objf.generate_from_var(objf.to_var()))
+                        elif pv == "generate_zero_obj":
+                            ok, d = ctx.attempt(objf.generate_zero_obj)
+                        elif pv == "generate_origin_obj":
+                            ok, d = ctx.attempt(objf.generate_origin_obj)
+                        else:
+                            r1, r2 = q_obj(objf, "eq"), None
+                            if pv == "projection-chain":
+                                ok, d = (r1 is not None), (q_obj(r1, "ineq") if r1 is not None else None)
+                            elif pv == "sum-of-projections":
+                                r2 = q_obj(objf, "ineq")
+                                ok, d = ctx.attempt(lambda: r1 + r2) if (r1 is not None and r2 is not None) else (False, None)
+                            elif pv == "scaled":
+                                ok, d = ctx.attempt(lambda: objf * 0.5)
+                            else:
+                                ok, d = ctx.attempt(lambda: objf - r1) if r1 is not None else (False, None)
+                        if not ok or not isinstance(d, cls):
+                            ctx.count(f"provenance-unavailable:{pv}")  # copy / generate_* / arithmetic are not this property's
+                            continue
+                        ran(st)
+                        for which in ("eq", "ineq"):
+                            q_obj(d, which)
+                    if pv == "copy" or hr.random() < 0.6:
+                        which, wv = rand_form()
+                        with J.step(f":host-via-{pv}"):
+                            f = factory(d, which, wv)
+                            if f is not None:
+                                J.call_closure(f, v.copy(), s, expect_flag=fl)
+            elif st == "closure-reuse":
+                # (c) one closure used for several variables, as an optimiser does (also with one caller-owned array whose
+                # contents the caller replaces between the calls)
+                which, wv = rand_form()
+                with J.step(":closure-re-used"):
+                    f = factory(objf, which, wv)
+                    if f is not None:
+                        ran(st)
+                        buf = v.copy()
+                        J.call_closure(f, buf, s, expect_flag=fl)
+                        buf[:] = w
+                        with J.step(":closure-re-used:same-array-new-contents"):
+                            J.call_closure(f, buf, s)
+                        J.call_closure(f, v.copy(), s)
+                # (d) one host asked for closures under every value of the optional flag argument
+                which, wv = rand_form()
+                host = other if (other is not None and hr.random() < 0.5) else objf
+                hflag = fl if host is objf else (not fl)
+                with J.step(":same-host-several-flags"):
+                    order = [(True, False, None), (False, True, None), (None, False, True), (None, True, False)][int(hr.integers(4))]
+                    fs = [(fa, factory(host, which, wv, fa)) for fa in order]
+                    for fa, f in reversed(fs):
+                        if f is not None:
+                            call(f, which, wv, fa, spec.drop(a, hflag if fa is None else fa), expect=(hflag if fa is None else None))
+                # (c) closures of two hosts of the same class and size, used alternately
+                hb = get_host_b()
+                if hb is not None and hr.random() < 0.5:
+                    which, wv = rand_form()
+                    with J.step(":interleaved-closures"):
+                        fa, fb = factory(objf, which, wv), factory(hb, which, wv)
+                        if fa is not None and fb is not None:
+                            J.call_closure(fa, v.copy(), s)
+                            J.call_closure(fb, w.copy(), s)
+                            J.call_closure(fa, w.copy(), s)
+                            J.call_closure(fb, v.copy(), s)
+            elif st == "static-reuse":
+                ran(st)
+                vo = spec.drop(a, not fl)
+                for which in ((("eq", "ineq") if hr.random() < 0.5 else ("ineq", "eq"))[: (2 if i == 0 else 1)]):
+                    with J.step(":static-re-used"):
+                        buf = v.copy()
+                        q_static(which, buf, fl)
+                        buf[:] = w
+                        with J.step(":static-re-used:same-array-new-contents"):
+                            q_static(which, buf, fl)
+                        q_static(which, vo.copy(), not fl)  # the other parametrisation in between
+                        q_static(which, v.copy(), fl)
+                # (b) a returned variable fed back in (alternating projections on variables)
+                with J.step(":input-from-previous-result"):
+                    x = q_static("eq", v.copy(), fl)
+                    y = q_static("ineq", x, fl) if x is not None else None
+                    if y is not None:
+                        q_static("eq", y, fl)
+            elif st == "kept-closures":
+                # (c) closures made in an earlier case of this shard (other host, other data, same size and flag)
+                for kf in (fl, not fl):
+                    old = [e for e in kept.get((spec.m, kf), []) if e[3] != i] if kf in per_flag else []
+                    if old:
+                        ran(st)
+                        with J.step(":closure-kept-from-earlier-case"):
+                            for j in hr.choice(len(old), size=min(3, len(old)), replace=False):
+                                nm, f, meta, _ = old[int(j)]
+                                J.closures[id(f)] = meta
+                                J.call_closure(f, per_flag[kf]["v"].copy(), s)
+                        break
+            elif st == "setters":
+                # (a) query -> public setter -> query on the same object; closures made before the setter
+                pre = [factory(objf, *rand_form()) for _ in range(2)]
+                with J.step(":after-option-setters"):
+                    ok1, _ = ctx.attempt(objf.set_mode_proj_order, "ineq_eq" if objf.mode_proj_order == "eq_ineq" else "eq_ineq")
+                    # (the threshold also zeroes real entries below it: it has to stay far below the tolerances)
+                    ok2, _ = ctx.attempt(setattr, objf, "eps_truncate_imaginary_part", 1e-12 if eps is None else 2 * eps)
+                    if not (ok1 and ok2):
+                        ctx.count("setter-unavailable")
+                    for which in ("ineq", "eq"):
+                        q_obj(objf, which)
+                # a projection result that is zeroed afterwards is an ordinary (infeasible) object again
+                with J.step(":result-zeroed-after-projection"):
+                    r = q_obj(objf, "eq", hold=False)  # (not held: the driver itself changes it through the setter)
+                    if r is not None and ctx.attempt(r.set_zero)[0]:
+                        for which in ("eq", "ineq"):
+                            q_obj(r, which)
+                ok, _ = ctx.attempt(objf.set_zero)
+                if not ok:
+                    ctx.count("setter-unavailable")
+                    continue
+                ran(st)
+                with J.step(":after-set_zero"):
+                    for which in ("eq", "ineq"):
+                        q_obj(objf, which)
+                with J.step(":closure-made-before-set_zero-of-host"):
+                    for f in pre:
+                        if f is not None:
+                            J.call_closure(f, v.copy(), s)
+                with J.step(":host-after-set_zero"):
+                    f = factory(objf, *rand_form())
+                    if f is not None:
+                        J.call_closure(f, v.copy(), s, expect_flag=fl)
+
     try:
+        # warm-up of the sibling system: it is the FIRST system of these dimensions the library sees in this process
+        for mm in ((2, 3) if T in ("Povm", "MProcess") else (1,)):
+            sibling_pass(ctx.rng(9000 + mm), mm)
         for i in ctx.cases(p["n"]):
             rng = ctx.rng()
+            hr = ctx.rng(4242)  # stream of the history steps and of the constructor options
             m = int(rng.integers(2, 6)) if T in ("Povm", "MProcess") else 1
             spec = J.spec(T, m)
             kind = str(rng.choice(KINDS))
-            s = float(rng.choice(SCALES)) if kind in ("gauss", "deg", "eqfeas", "ineqfeas") else 1.0
+            s = float(rng.choice(SCALES)) if kind in SCALED_KINDS else 1.0
             J.begin_case(s)
             eps = 1e-10 if (s == 1e3 and rng.random() < 0.6) else None
             a = np.ascontiguousarray(make_input(spec, kind, s, rng), dtype=np.float64)
+            opts = draw_ctor_options(hr, T, m)
+            if hr.random() < 0.34:
+                sibling_pass(hr, m)
             if kind != "feasible":
                 ctx.nontrivial(T, shape, bkind, kind, s, m, a)
             if i < 2:
                 ctx.sample({"type": T, "shape": shape, "basis": bkind, "class": kind, "scale": s, "m": m,
-                            "eps_truncate_imaginary_part": eps, "eq_violation_in": spec.eq_violation(a),
+                            "eps_truncate_imaginary_part": eps, "ctor_options": {k: (list(x) if isinstance(x, tuple) else x)
+                                                                                 for k, x in opts.items()},
+                            "eq_violation_in": spec.eq_violation(a),
                             "ineq_violation_in": spec.ineq_violation(a), "params": a})
+            per_flag = {}
             for flag in (True, False):
-                ok, obj = build(a, spec, flag, eps)
+                ok, obj = build(a, spec, flag, eps, opts)
                 if not ok:
                     ctx.violation(f"{T}.ctor:" + ctx.exc_key(obj), {"flag": flag})
                     continue
@@ -787,24 +1195,28 @@ def run_shard(ctx):
                     ok, r = ctx.attempt(getattr(obj, f"calc_proj_{which}_constraint"))
                     if not ok:
                         J.exc(f"{T}.calc_proj_{which}_constraint", which, r, s)
+                    elif isinstance(r, cls):
+                        J.hold(f"{T}.calc_proj_{which}_constraint", r)
                 # the variable of this object under `flag`, and the object it denotes
                 v = spec.drop(a, flag)
                 af = spec.full(v, flag)
                 if flag:
-                    ok, objf = build(af, spec, True, eps)
+                    ok, objf = build(af, spec, True, eps, opts)
                     if not ok:
                         ctx.violation(f"{T}.ctor:" + ctx.exc_key(objf), {"flag": flag})
                         continue
                 else:
                     objf = obj
-                ok, other = build(a, spec, not flag, eps)
+                ok, other = build(a, spec, not flag, eps, opts)
                 if not ok:
                     other = None
+                per_flag[flag] = {"objf": objf, "other": other, "v": v}
                 scale, tp, tf = J.tols(af)
                 for which in ("eq", "ineq"):
                     res = {}
                     ok, r = ctx.attempt(getattr(objf, f"calc_proj_{which}_constraint"))
                     if ok and isinstance(r, cls):
+                        J.hold(f"{T}.calc_proj_{which}_constraint", r)
                         rr = stack(gen.raw_params(r))
                         if rr.size == spec.size and not np.iscomplexobj(rr):
                             res["object"] = spec.drop(rr, flag)
@@ -820,6 +1232,8 @@ def run_shard(ctx):
                         ok, out = ctx.attempt(static, c_sys, vv, flag)
                     if ok:
                         res["static"] = out
+                        if isinstance(out, np.ndarray) and out.dtype != object:
+                            J.hold(f"{T}.calc_proj_{which}_constraint_with_var:flag={flag}", out, vv)
                     else:
                         J.exc(f"{T}.calc_proj_{which}_constraint_with_var:flag={flag}", which, out, s)
                     for host, farg, tag in ((objf, None, "default-flag"), (other, flag, "explicit-flag")):
@@ -831,6 +1245,10 @@ def run_shard(ctx):
                             if not ok:
                                 ctx.violation(f"{T}.{nm}:" + ctx.exc_key(f), {"flag": flag})
                                 continue
+                            # (hosts with the default truncation threshold only: a closure reads its host's threshold, and a
+                            # threshold chosen for scale 1e3 would be coarse for a later case of scale 1)
+                            if eps is None and id(f) in J.closures and len(kept.setdefault((m, flag), [])) < 8:
+                                kept[(m, flag)].append((nm, f, J.closures[id(f)], i))
                             out = J.call_closure(f, v.copy(), s)
                             if out is not None:
                                 res[f"closure{'_with_var' if wv else ''}:{tag}"] = out
@@ -847,12 +1265,30 @@ def run_shard(ctx):
                         pair = f"{ks[0].split(':')[0]}-vs-{k.split(':')[0]}"
                         ctx.num(lab, norm(vals[k] - vals[ks[0]]) / scale, tp, tf, key=f"{T}.{which}:flag={flag}:{pair}:forms-disagree",
                                 info={"forms": [ks[0], k], "norm_a": norm(af)})
+            history(i, hr, spec, a, s, eps, opts, per_flag)
+            # nothing the library returned in this case may have been changed by a later call
+            J.check_held()
     finally:
         hs.uninstall()
     ctx.extra["hook_counts"] = hs.counts
+    ctx.extra["history_steps"] = steps_done
     req = []
     for which in ("eq", "ineq"):
         req += [f"{T}.calc_proj_{which}_constraint", f"{T}.calc_proj_{which}_constraint_with_var",
                 f"{T}.func_calc_proj_{which}_constraint", f"{T}.func_calc_proj_{which}_constraint_with_var"]
     if ctx.only_case is None:
         hs.require(req)
+
+
+def finalize(merged, ctx):
+    """every history step must have run for every object type (a step that never ran has shown nothing)"""
+    done = {}
+    for e in merged["extra"]:
+        t = (e.get("params") or {}).get("type")
+        for st, n in ((e.get("extra") or {}).get("history_steps") or {}).items():
+            done[(t, st)] = done.get((t, st), 0) + int(n)
+    for t in TYPES:
+        for st in HISTORY_STEPS:
+            ctx.count(f"history:{t}:{st}", done.get((t, st), 0))
+            if done.get((t, st), 0) == 0:
+                ctx.mark_inconclusive(f"history step never ran: {t}:{st}")
